@@ -128,24 +128,42 @@ def eventStepPinned : LoopStep := fun b =>
 
 /-! ## 3. the loops as repaired -/
 
+/-- `parse_request` on a complete message whose first line is empty: `if not first_line: return
+    None, rest` — "no request", yet `rest` is what follows the message (`parse_response` tests
+    `is None` and raises instead).  `some rest` in exactly that case. -/
+def emptyFirst (b : Bytes) : Option Bytes :=
+  match C02.splitSep b with
+  | none => none
+  | some (hdr, body) =>
+    match C02.stdClen hdr with
+    | none => none
+    | some n =>
+      if body.length < n then none
+      else if (C02.firstLine hdr).isEmpty then some (body.drop n) else none
+
 /-- `EventChannel.handle_received` as repaired: a request that does not parse empties the buffer
-    and leaves the loop -/
+    and leaves the loop (`C02.httpServer.ext` answers `err` also for the empty first line, where
+    the code leaves through `if request is None: break`; the buffer differs: `eventFin`) -/
 def eventStep : LoopStep := extStep C02.httpServer
 
 /-- buffer after `EventChannel.handle_received` left through iteration on `b` -/
 def eventFin (b : Bytes) : Bytes :=
-  match C02.httpServer.ext b with
-  | .err _ => []                 -- `self.buffer = b""`
-  | _ => b
+  match emptyFirst b with
+  | some r => r                  -- `request, _, self.buffer = …` assigned `rest`, then `break`
+  | none =>
+    match C02.httpServer.ext b with
+    | .err _ => []               -- `self.buffer = b""`
+    | _ => b
 
 /-- `BasicHttpServer.data_received`: `rest = _parse_and_send_next(buf); if rest == buf: break`.
-    `_parse_and_send_next` returns `data` when the request is incomplete, `b""` when anything
-    raised (500 response), the rest otherwise. -/
+    `_parse_and_send_next` returns `data` when there is no request (incomplete, or empty first
+    line), `b""` when anything raised (500 response), the rest otherwise. -/
 def serverNext (b : Bytes) : Bytes :=
-  match C02.httpServer.ext b with
-  | .need => b
-  | .msg _ r => r
-  | .err _ => []
+  if (emptyFirst b).isSome then b
+  else match C02.httpServer.ext b with
+    | .need => b
+    | .msg _ r => r
+    | .err _ => []
 
 def serverStep : LoopStep := fun b =>
   if b.isEmpty then none                      -- `while self._request_buffer:`
@@ -153,7 +171,10 @@ def serverStep : LoopStep := fun b =>
   else some (serverNext b)
 
 /-- `decode_protobufs`: `while data:` … everything inside one `try`, so any exception leaves the
-    loop.  A first byte 0x08 takes the whole rest as one message. -/
+    loop.  A first byte 0x08 takes the whole rest as one message; a length-prefixed message must
+    start with 0x08 (`assert message[0] == 0x8`: IndexError / AssertionError inside the `try`).
+    `ParseFromString` is not modelled (the correspondence run stubs it; a parse error is one
+    more way to leave the loop). -/
 def protobufsStep : LoopStep := fun b =>
   match b with
   | [] => none
@@ -161,7 +182,10 @@ def protobufsStep : LoopStep := fun b =>
     if c = 8 then some []
     else match C04.Varint.readVar b with
       | none => none                                   -- ValueError inside the `try`
-      | some (len, raw) => if raw.length < len then none else some (raw.drop len)
+      | some (len, raw) =>
+        if raw.length < len then none                  -- `break`
+        else if (raw.take len).head? = some 8 then some (raw.drop len)
+        else none
 
 /-! ### `int(s, 16)` on a TXT value (ASCII input; the harness keeps to ASCII) -/
 
